@@ -40,7 +40,7 @@ impl Parse for ImplItem {
             trait_path,
             self_ty,
             preds: wc.map(|w| w.predicates.iter().map(|p| ts(p)).collect()).unwrap_or_default(),
-            body: body.to_string(),
+            body: canon(body),
         })
     }
 }
@@ -58,7 +58,39 @@ impl Parse for Items {
 }
 
 fn ts<T: quote::ToTokens>(t: &T) -> String {
-    t.to_token_stream().to_string()
+    canon(t.to_token_stream())
+}
+
+/// canonical token string: like `to_string()`, except that a negative literal token is printed as `-` followed by the
+/// literal, which is how the compiler's own token streams represent it
+fn canon(ts: TokenStream) -> String {
+    fn norm(ts: TokenStream) -> TokenStream {
+        let mut out = TokenStream::new();
+        for t in ts {
+            match t {
+                TokenTree::Group(g) => {
+                    let mut ng = proc_macro2::Group::new(g.delimiter(), norm(g.stream()));
+                    ng.set_span(g.span());
+                    out.extend(std::iter::once(TokenTree::Group(ng)));
+                }
+                TokenTree::Literal(l) => {
+                    let s = l.to_string();
+                    if let Some(rest) = s.strip_prefix('-') {
+                        out.extend(std::iter::once(TokenTree::Punct(proc_macro2::Punct::new('-', proc_macro2::Spacing::Alone))));
+                        match proc_macro2::Literal::from_str(rest) {
+                            Ok(p) => out.extend(std::iter::once(TokenTree::Literal(p))),
+                            Err(_) => out.extend(std::iter::once(TokenTree::Literal(l))),
+                        }
+                    } else {
+                        out.extend(std::iter::once(TokenTree::Literal(l)));
+                    }
+                }
+                other => out.extend(std::iter::once(other)),
+            }
+        }
+        out
+    }
+    norm(ts).to_string()
 }
 
 fn esc(s: &str) -> String {
@@ -132,7 +164,7 @@ fn main() {
         let text = unescape(parts.next().unwrap_or(""));
         if mode == "t" {
             match TokenStream::from_str(&text) {
-                Ok(t) => writeln!(out, "{{\"id\":{},\"st\":\"ok\",\"raw\":{}}}", esc(id), esc(&t.to_string())).unwrap(),
+                Ok(t) => writeln!(out, "{{\"id\":{},\"st\":\"ok\",\"raw\":{}}}", esc(id), esc(&canon(t))).unwrap(),
                 Err(e) => writeln!(out, "{{\"id\":{},\"st\":\"lexerr\",\"msg\":{}}}", esc(id), esc(&e.to_string())).unwrap(),
             }
             continue;
@@ -149,7 +181,7 @@ fn main() {
             Err(_) => writeln!(out, "{{\"id\":{},\"st\":\"panic\"}}", esc(id)).unwrap(),
             Ok(Err(e)) => writeln!(out, "{{\"id\":{},\"st\":\"err\",\"msg\":{}}}", esc(id), esc(&e.to_string())).unwrap(),
             Ok(Ok(tokens)) => {
-                let raw = tokens.to_string();
+                let raw = canon(tokens.clone());
                 let mut s = format!("{{\"id\":{},\"st\":\"ok\",\"raw\":{}", esc(id), esc(&raw));
                 match syn::parse2::<Items>(tokens.clone()) {
                     Ok(items) => {
